@@ -83,11 +83,9 @@ pub struct FramebufferTag {
     bpp: u8,
 
     /// The type of framebuffer. See [`FramebufferTypeId`].
-    // TODO: Strictly speaking this causes UB for invalid values. However, no
-    //  sane bootloader puts something illegal there at the moment. When we
-    //  refactor this (newtype pattern?), we should also streamline other
-    //  parts in the code base accordingly.
-    framebuffer_type: FramebufferTypeId,
+    /// Raw [`FramebufferTypeId`]. Kept as plain byte, as the memory may hold
+    /// values that are no valid variant.
+    framebuffer_type: u8,
 
     _padding: u16,
 
@@ -168,10 +166,7 @@ impl FramebufferTag {
     pub fn buffer_type(&self) -> Result<FramebufferType, UnknownFramebufferType> {
         let mut reader = Reader::new(&self.buffer);
 
-        // TODO: We should use the newtype pattern instead or so to properly
-        //  solve this.
-        let fb_type_raw = self.framebuffer_type as u8;
-        let fb_type = FramebufferTypeId::try_from(fb_type_raw)?;
+        let fb_type = FramebufferTypeId::try_from(self.framebuffer_type)?;
 
         match fb_type {
             FramebufferTypeId::Indexed => {
